@@ -69,6 +69,10 @@ func randomEmail(buf []byte) error {
 	tld := []byte(tlds[seededRand.Int31n(int32(len(tlds)))])
 	// After we've chosen the TLD, fill the rest of the email with gibberish, and throw @ in there somewhere.
 	nonTLDlen := len(buf) - len(tld)
+	if nonTLDlen < 1 {
+		// too short for any e-mail shape (local part, '@', TLD): keep the length, fill with random characters
+		return randomString(buf)
+	}
 	err := randomString(buf[:nonTLDlen])
 	if err != nil {
 		return err
